@@ -200,6 +200,8 @@ func (m *Machine) builtin(name string, args []Value, cc *ssa.CallCommon) Value {
 			}
 			return nil
 		}
+	case "verif.noop":
+		return nil
 	case "recover":
 		if m.curPanic != nil && m.curPanic.panicking != nil {
 			gp := m.curPanic.panicking
@@ -619,6 +621,11 @@ func (m *Machine) intercept(fn *ssa.Function) (func([]Value) Value, bool) {
 				}
 			}
 			return Int{m.i64(cnt)}
+		}, true
+	case "context.WithCancel":
+		// inert model: the derived context is the parent, cancelling does nothing (no goroutines are modelled)
+		return func(args []Value) Value {
+			return Tuple{V: []Value{args[0], Func{Builtin: "verif.noop"}}}
 		}, true
 	case "errors.As":
 		// model: walk the Unwrap chain; a link matches when its dynamic type is identical to the target's element type
